@@ -203,13 +203,15 @@ where
     coms_to_verify.extend([
         (
             trace_targets.clone(),
-            vec![(
-                trace_domain,
-                vec![
-                    (zeta, opened_trace_local_targets.clone()),
-                    (zeta_next, opened_trace_next_targets.clone()),
-                ],
-            )],
+            vec![(trace_domain, {
+                // As in the native verifier, an AIR that never reads the next row has no
+                // `trace_next` opening.
+                let mut points = vec![(zeta, opened_trace_local_targets.clone())];
+                if air.opens_trace_next() {
+                    points.push((zeta_next, opened_trace_next_targets.clone()));
+                }
+                points
+            })],
         ),
         (
             quotient_chunks_targets.clone(),
@@ -452,10 +454,12 @@ where
         ..
     } = opened_values;
 
-    if opened_trace_local.len() != air_width || opened_trace_next.len() != air_width {
+    let expected_next_len = if air.opens_trace_next() { air_width } else { 0 };
+    if opened_trace_local.len() != air_width || opened_trace_next.len() != expected_next_len {
         return Err(VerificationError::InvalidProofShape(format!(
-            "Expected opened_trace_local and opened_trace_next to have length {}, got {} and {}",
+            "Expected opened_trace_local and opened_trace_next to have length {} and {}, got {} and {}",
             air_width,
+            expected_next_len,
             opened_trace_local.len(),
             opened_trace_next.len()
         )));
